@@ -418,9 +418,10 @@ DEPTHS = [1e-6, 1e-4, 1e-3, 1e-2, 0.1, 0.3, 1.0]
 def gen_overlapping(rng, tier, kinds, margin_prob=0.0, stream=None):
     """(s1, s2, meta): a pair that overlaps (as far as the harness' own float oracle can tell).
     streams: depth (B placed along a direction so that the extent of the overlap along it is
-    delta*L), lattice (exact coincidences), deep (random poses with nearby centres), nested"""
+    delta*L), lattice (exact coincidences), deep (random poses with nearby centres), nested, small
+    (feature sizes 1e-2 .. 5e-2)"""
     for _ in range(200):
-        stream_ = stream or rng.choice(["depth", "depth", "depth", "lattice", "lattice", "deep", "nested"])
+        stream_ = stream or rng.choice(["depth", "depth", "depth", "lattice", "lattice", "deep", "nested", "small"])
         k1, k2 = rng.choice(kinds), rng.choice(kinds)
         meta = dict(stream=stream_, kinds=[k1, k2])
         if stream_ == "depth":
@@ -445,6 +446,14 @@ def gen_overlapping(rng, tier, kinds, margin_prob=0.0, stream=None):
             if rng.random() < 0.7:
                 off = [rng.choice([-1.0, -0.5, -0.25, 0.0, 0.0, 0.25, 0.5, 1.0]) for _ in range(3)]
                 s2 = nw.translate_spec(s2, (nw.center_of(s1) - nw.center_of(s2)) + np.array(off))
+        elif stream_ == "small":
+            # feature sizes of a few 1e-2 (lower end of the declared domain): tiny polytope faces
+            sz = [0.01, 0.0125, 0.02, 0.025, 0.04, 0.05]
+            s1 = nw.gen_collider(rng, k1, "moderate", spread=1.0, margin_prob=margin_prob, sizes=sz)
+            s2 = nw.gen_collider(rng, k2, "moderate", spread=1.0, margin_prob=margin_prob, sizes=sz)
+            f = min(nw.feature_size(s1), nw.feature_size(s2))
+            off = np.array([rng.uniform(-1, 1) for _ in range(3)]) * f * rng.choice([0.2, 0.6, 1.0])
+            s2 = nw.translate_spec(s2, nw.center_of(s1) - nw.center_of(s2) + off)
         elif stream_ == "deep":
             s1 = nw.gen_collider(rng, k1, "moderate", spread=1.0, margin_prob=margin_prob)
             s2 = nw.gen_collider(rng, k2, "moderate", spread=1.0, margin_prob=margin_prob)
